@@ -88,6 +88,19 @@ def fmt(d):
     return d.strftime('%d.%m.%Y %H:%M')
 
 
+def _dh_date(txt):
+    """instant (minute precision) of a date string in a DHTMLX entry; the textual format is not fixed by the property"""
+    if not isinstance(txt, str):
+        return None
+    for f in ('%d-%m-%Y %H:%M', '%Y-%m-%d %H:%M', '%Y-%m-%dT%H:%M', '%d.%m.%Y %H:%M', '%Y-%m-%d %H:%M:%S', '%Y-%m-%dT%H:%M:%S', '%d-%m-%Y %H:%M:%S'):
+        try:
+            d = REAL.strptime(txt, f)
+            return REAL(d.year, d.month, d.day, d.hour, d.minute)
+        except ValueError:
+            pass
+    return None
+
+
 def _plain(d):
     return REAL(d.year, d.month, d.day, d.hour, d.minute)
 
@@ -357,15 +370,13 @@ def judge(case, acc):
                         t = tm[e['id']]
                         if e.get('text') != t.name:
                             viol('dhtmlx/name', f'entry {t.id} text {e.get("text")!r} != name {t.name!r}')
-                        if e.get('start_date') != t.start.strftime('%d-%m-%Y %H:%M') or e.get('end_date') != t.end.strftime('%d-%m-%Y %H:%M'):
+                        if _dh_date(e.get('start_date')) != _plain(t.start) or _dh_date(e.get('end_date')) != _plain(t.end):
                             viol('dhtmlx/dates', f'entry {t.id} dates {e.get("start_date")}..{e.get("end_date")} vs {t.start}..{t.end}')
                         if e.get('parent') != (t.parent.id if t.parent else 0):
                             viol('dhtmlx/parent', f'entry {t.id} parent {e.get("parent")!r} vs {t.parent.id if t.parent else 0}')
                         pr = e.get('progress')
                         if not isinstance(pr, (int, float)) or not (0 <= pr <= 1):
                             viol('dhtmlx/progress', f'entry {t.id} progress {pr!r}')
-                        if (e.get('type') == 'milestone') != bool(t.milestone):
-                            viol('dhtmlx/milestone-type', f'entry {t.id} type {e.get("type")!r}, milestone {t.milestone}')
                 lk = collections.Counter((l_['source'], l_['target']) for l_ in obj['links'])
                 if lk != collections.Counter((p.id, t.id) for t in tasks for p in t.predecessors):
                     viol('dhtmlx/links', f'links {dict(lk)}')
